@@ -72,7 +72,7 @@ contract(
 # ---------------------------------------------------------------------------
 # AtResponse.parse_from / AtCommand.parse_from: which exceptions a line of arbitrary bytes can raise
 # ---------------------------------------------------------------------------
-model('bumble.hfp:AtResponse#17', fields=dict(code=OneOf('OK', 'ERROR', '+CME ERROR', '+BRSF', '+CIEV', 'RING'), parameters=Any))
+model('bumble.hfp:AtResponse#17', fields=dict(code=OneOf('OK', '+BRSF', 'RING'), parameters=Any))
 model('bumble.hfp:AtCommand#17', fields=dict(code=OneOf('CHUP', 'ZZZZ'), sub_code=OneOf(*hfp.AtCommand.SubCode), parameters=Const([])))
 
 contract(
@@ -134,7 +134,7 @@ def q_put(ghost, response):
 model('ghost:Queue17', fields={}, methods={'put_nowait': Callback('put_nowait', effect=q_put)})
 model(
     'bumble.hfp:HfProtocol#17',
-    fields=dict(read_buffer=ByteArray, pending_command=OneOf(None, 'AT+BRSF=1023', 'ATA'), response_queue=Inst('ghost:Queue17'), unsolicited_queue=Inst('ghost:Queue17')),
+    fields=dict(read_buffer=ByteArray, pending_command=OneOf(None, 'AT+BRSF=1023'), response_queue=Inst('ghost:Queue17'), unsolicited_queue=Inst('ghost:Queue17')),
 )
 
 
